@@ -25,7 +25,10 @@ TRUSTED = ['modelled, not verified: asyncio Task.cancel / step / done-callback s
            'closed and no attached transport) re-implemented by harness/c09_util.AsyncioServerStandIn',
            'harness/c09_util.py: instrumented SS handler (await kinds recv_message / sleep / send_message with '
            'the peer stream window at 0 / send_trailing_metadata), instance-level wrapper of Handler.accept to '
-           'learn the task object, reads of Handler._tasks/_cancelled and EventsProcessor.streams']
+           'learn the task (asyncio.all_tasks) and the release callback; Handler._tasks/_cancelled and Server._handlers '
+           'are located by role (a mapping / a collection holding handler tasks, a collection holding the Handlers), '
+           'never by name, and masked in the comparison when they cannot be located; EventsProcessor.streams, '
+           'Stream.wrapper and Wrapper.cancelled are read through their public names']
 ASSUMPTIONS = ['the transport is writable while a handler exits (no suspension in Stream.__aexit__)',
                'hyper-h2 emits at most one StreamReset per stream',
                'asyncio.Server.wait_closed has the Python 3.12.1 semantics (returns when closed and every '
@@ -271,19 +274,23 @@ def oracle(out):
         fin = final.get(k)
         if fin is None:
             continue
-        hits = [(c[0], c[1], c[2][k]) for c in out['causes'] if k in c[2]]
+        hits = [(c[0], c[1], c[2][k], c[3]) for c in out['causes'] if k in c[2]]
         # attribute each delivery to the cause(s) that reached the handler since the previous delivery
-        prev, labels = 0, []
+        prev, labels, implicit = 0, [], []
         for (clk, where) in r['deliveries']:
-            cands = sorted(set(h[1] for h in hits if prev < h[0] <= clk))
+            win = [h for h in hits if prev < h[0] <= clk]
+            cands = sorted(set(h[1] for h in win))
             labels.append(cands[0] if len(cands) == 1 else ('multiple' if cands else '?'))
+            # the only cause is the connection_lost that an ordinary transport delivers by itself right after
+            # EventsProcessor.close(): nothing can run in between, it must collapse with the first cancel
+            implicit.append(bool(win) and all(h[1] == 'lost' and h[3] for h in win))
             prev = clk
         # (1) exactly once: no CancelledError inside the cleanup ...
         for n, (clk, where) in enumerate(r['deliveries']):
             if where == 'cleanup':
                 pair = '%s>%s' % (labels[n - 1] if n else '?', labels[n])
                 fails.append(('a second CancelledError was delivered inside the cleanup of handler %s (%s)' % (k, pair),
-                              {'kind': 'second-cancel-in-cleanup', 'pair': pair}))
+                              {'kind': 'second-cancel-in-cleanup', 'pair': pair, 'implicit_lost': implicit[n]}))
         nmain = len([d for d in r['deliveries'] if d[1] == 'main'])
         if r['beh'] != 'sw':
             if nmain > 1:
@@ -338,8 +345,9 @@ def oracle(out):
                 fails.append(('%s changed handler %s: %r -> %r' % (it[0], k, before[k], later.get(k)),
                               {'kind': 'not-isolated', 'cause': it[0]}))
     for e in out['errors']:
-        fails.append(('%s escaped H2Protocol.%s on connection %d' % (e[2], e[0], e[1]),
-                      {'kind': 'exception-escaped-data_received', 'exc': e[2]}))
+        if e[0] == 'data_received':
+            fails.append(('%s escaped H2Protocol.%s on connection %d' % (e[2], e[0], e[1]),
+                          {'kind': 'exception-escaped-data_received', 'exc': e[2]}))
     for u in out['unhandled']:
         fails.append(('unhandled exception in the loop: %s' % u, {'kind': 'loop-unhandled-exception'}))
     # (5) wait_closed returns only when every handler has finished, and does return once they have
@@ -408,13 +416,18 @@ def check_cases(ctx, res, cases):
         if model is not None:
             res.traces += 1
             msn = [] if model[n] == '-' else model[n].split(' | ')
-            canon = [U.canon_model_snapshot(x) for x in msn]
+            avail = out.get('avail', {})
+            for r, ok in avail.items():
+                if not ok:
+                    res.count('internal-observation-unavailable:' + r)
+            canon = [U.canon_model_snapshot(x, avail) for x in msn]
             mm = [c[0] for c in canon]
-            if mm != out['snaps'] or not all(c[1] for c in canon):
-                first = next((i for i, (a, b) in enumerate(zip(mm, out['snaps'])) if a != b), min(len(mm), len(out['snaps'])))
+            isn = [U.mask_impl_snapshot(x, avail) for x in out['snaps']]
+            if mm != isn or not all(c[1] for c in canon):
+                first = next((i for i, (a, b) in enumerate(zip(mm, isn)) if a != b), min(len(mm), len(isn)))
                 res.disagreements.append({'case': case,
                                           'model': {'line': out['ops'], 'at': first, 'snap': mm[first:first + 1]},
-                                          'impl': {'snap': out['snaps'][first:first + 1]}})
+                                          'impl': {'snap': isn[first:first + 1]}})
         for what, sig in oracle(out):
             res.oracle_failures.append({'case': case, 'what': what, 'signature': sig,
                                         'observed': {'recs': out['recs'], 'final': out['snaps'][-1:] }})
@@ -462,6 +475,7 @@ def micro_data_goaway_same_read():
             sc.do(it)
         proto, tr, peer = sc.conns[0]
         # no settle between the two frames, and none before the GOAWAY
+        sc.same_read = True
         for it in (['msg', 0, 0], ['goaway', 0]):
             toks = sc._frames(it)
             sc.ops += toks
@@ -499,8 +513,23 @@ class FakeServer:
         self.closes += 1
 
 
-def graceful_impl(bits, sigs, real):
-    from grpclib.utils import _exit_handler
+class SignalRecorder:
+    """stands for the loop in graceful_exit(servers, loop=...): remembers what add_signal_handler registers"""
+
+    def __init__(self):
+        self.handlers = {}
+
+    def add_signal_handler(self, sig, callback, *args):
+        self.handlers[sig] = (callback, args)
+
+    def remove_signal_handler(self, sig):
+        self.handlers.pop(sig, None)
+
+
+def graceful_impl(bits, sigs, real, loop):
+    """graceful_exit through its public API: the signal handlers it registers are called as the loop would"""
+    import warnings
+    from grpclib.utils import graceful_exit
     from grpclib.server import Server
     servers = []
     for b in bits:
@@ -514,27 +543,34 @@ def graceful_impl(bits, sigs, real):
 
                     def close(self):
                         self.owner.closes += 1
-                s._server = A(s)
-                s._server_closed_fut = asyncio.get_event_loop().create_future()
+
+                    async def wait_closed(self):
+                        return None
+                U.start_server(loop, s, A(s))
             servers.append(s)
         else:
             servers.append(FakeServer(b == '1'))
-    flag, exits = [], []
-    for sg in sigs:
-        try:
-            _exit_handler(sg, servers, flag)
-        except SystemExit as e:
-            exits.append(e.code)
-    return [s.closes for s in servers], bool(flag), exits
+    rec, exits = SignalRecorder(), []
+    with warnings.catch_warnings():
+        warnings.simplefilter('ignore')
+        with graceful_exit(servers, loop=rec, signals=sorted(set(sigs)) or (2, 15)):
+            for sg in sigs:
+                cb, args = rec.handlers[sg]
+                try:
+                    cb(*args)
+                except SystemExit as e:
+                    exits.append(e.code)
+    flag = None
+    return [s.closes for s in servers], flag, exits
 
 
 def check_graceful(ctx, res, cases):
     from harness import vloop
     lines = ['gx %s %s' % (b or '-', ','.join(map(str, s)) or '-') for b, s, _ in cases]
     model = ctx.model(lines) if ctx.model_ok else None
-    with vloop.session():
+    with vloop.session() as loop:
         for n, (bits, sigs, real) in enumerate(cases):
-            impl = graceful_impl(bits, sigs, real)
+            impl = graceful_impl(bits, sigs, real, loop)
             res.evaluations += 1
             res.count('graceful:%s' % ('all-started' if '0' not in bits else 'some-not-started'))
             res.signatures.add(('gx', bits, len(sigs)))
@@ -542,7 +578,8 @@ def check_graceful(ctx, res, cases):
             if model is not None:
                 res.traces += 1
                 w = model[n].split()
-                m = ([] if w[0] == '-' else [int(x) for x in w[0].split(',')], w[1] == '1',
+                # the `flag` list is private to graceful_exit: its effect shows in the later signals
+                m = ([] if w[0] == '-' else [int(x) for x in w[0].split(',')], None,
                      [] if w[2] == '-' else [int(x) for x in w[2].split(',')])
                 if m != impl:
                     res.disagreements.append({'case': case, 'model': m, 'impl': impl})
@@ -569,8 +606,10 @@ def loopback_wait_closed(idle, close_client_after, budget=5.0):
 
     async def main():
         server = Server([])
-        await server.start('127.0.0.1', 0)
-        port = server._server.sockets[0].getsockname()[1]
+        lsock = socket.socket()
+        lsock.bind(('127.0.0.1', 0))
+        port = lsock.getsockname()[1]
+        await server.start(sock=lsock)
         socks = []
         for _ in range(idle):
             s = socket.create_connection(('127.0.0.1', port))
